@@ -61,6 +61,11 @@ func c13RawResponses(n *memnet.Net) {
 	n.Raw["r503"] = &memnet.Response{Status: 503, Header: [][2]string{{"Retry-After", "7"}}, Body: []byte("target says 503")}
 	n.Raw["rbig"] = &memnet.Response{Status: 200, Body: bytes.Repeat([]byte("R"), 100*1024)}
 	n.Raw["rchunk"] = &memnet.Response{Status: 200, Chunked: true, Body: []byte("chunk-one|chunk-two|chunk-three")}
+	{
+		// the header arrives at once, the body is complete only after the target timeout has passed
+		raw := "HTTP/1.1 200 OK\r\nContent-Length: 21\r\nX-Slow: yes\r\n\r\nslow-part1|slow-part2"
+		n.Raw["rslow"] = &memnet.Response{Status: 200, Raw: []byte(raw), Gaps: []memnet.Gap{{Offset: len(raw) - 10, Wait: vTargetTO + 800*time.Millisecond}}}
+	}
 	n.Raw["rhints"] = &memnet.Response{Raw: []byte("HTTP/1.1 103 Early Hints\r\nLink: </style.css>; rel=preload\r\n\r\nHTTP/1.1 404 Not Found\r\nContent-Length: 6\r\nX-After-Hints: yes\r\n\r\nnf-103")}
 }
 
@@ -256,6 +261,36 @@ func c13Concurrent(kind string) func(w *World) []Violation {
 		}
 		return vs
 	}
+}
+
+// c13SlowBodies: the target timeout bounds the wait for the target's response header, not the transfer of bodies: a
+// response whose body completes after the timeout (header in time), and an upload that takes longer than the timeout,
+// pass unchanged, with and without buffering.
+func c13SlowBodies(w *World) []Violation {
+	var vs []Violation
+	add := func(sig, d string) { vs = append(vs, Violation{"C13", sig, d}) }
+	for _, host := range []string{"m1.example.com", "m5.example.com"} {
+		c13seq++
+		mk := fmt.Sprintf("slow-%d", c13seq)
+		o := w.Do(ReqSpec{ID: mk, Host: host, Path: "/slow", Plan: "r=rslow"})
+		if o.Status != 200 || string(o.Body) != "slow-part1|slow-part2" || o.Header.Get("X-Slow") != "yes" || o.Aborted {
+			add("slow-response-body-not-returned-unchanged", fmt.Sprintf("%s: target answered its header at once and finished the body %v later (target timeout %v): client got %s body %q", host, vTargetTO+800*time.Millisecond, vTargetTO, o.Summary(), firstN(o.Body, 40)))
+		}
+		c13seq++
+		mk = fmt.Sprintf("slowup-%d", c13seq)
+		o = w.Do(ReqSpec{ID: mk, Method: "POST", Host: host, Path: "/upload", BodyChunks: [][]byte{[]byte("first-half|"), []byte("second-half")}, BodyGap: vTargetTO + 800*time.Millisecond})
+		var got []byte
+		found := false
+		for _, e := range w.Net.Events() {
+			if e.Kind == "req" && e.ReqID == mk {
+				got, found = e.Body, true
+			}
+		}
+		if o.Status != 200 || !found || string(got) != "first-half|second-half" {
+			add("slow-upload-not-forwarded-unchanged", fmt.Sprintf("%s: upload taking %v (target timeout %v): client got %s, target saw %q (reached=%v)", host, vTargetTO+800*time.Millisecond, vTargetTO, o.Summary(), firstN(got, 40), found))
+		}
+	}
+	return vs
 }
 
 var c13seq int
@@ -586,6 +621,7 @@ func c13Cases(tier string) []ECase {
 	for _, k := range []string{"held-by-pause", "slow-buffered-upload"} {
 		cases = append(cases, ECase{Name: "concurrent " + k, Class: "concurrent " + k, Run: c13Concurrent(k)})
 	}
+	cases = append(cases, ECase{Name: "bodies slower than the target timeout", Class: "slow-bodies", Run: c13SlowBodies})
 	cases = append(cases, ECase{Name: "redeploy onto the same target with forwarding / stripping flipped", Class: "redeploy-same-target", Run: c13RedeploySameTarget})
 	for _, in := range ins {
 		in := in
